@@ -174,6 +174,10 @@ structure Env where
       both; a user may clear one — or both) -/
   odd : Bool := true
   even : Bool := true
+  /-- the RAW flags `(IsOdd, IsEven)` of each polynomial of a vector, in order (what each polynomial's own
+      `Factorize` reads); empty: every polynomial carries `(odd, even)`.  For a vector `odd`/`even` above are
+      `vecFlags pflags`: the parities at least one member uses (`PolynomialVector.IsOdd/IsEven`). -/
+  pflags : List (Bool × Bool) := []
 
 structure Opd where
   level : Int
@@ -393,10 +397,19 @@ structure SubPoly where
 
 def SubPoly.degree (p : SubPoly) : Nat := (p.coeffs.headD []).length - 1
 
-/-- `Polynomial.Factorize(n)` on every polynomial of the vector -/
+/-- `PolynomialVector.IsOdd()` / `IsEven()` from the members' raw flags `(IsOdd, IsEven)`: the odd- resp.
+    even-indexed coefficients of AT LEAST ONE member have to be evaluated.  A member flagged odd-and-not-even has no
+    even part, one flagged even-and-not-odd no odd part; any other flagging is a general polynomial. -/
+def vecFlags (fl : List (Bool × Bool)) : Bool × Bool :=
+  (fl.any fun f => f.1 || !f.2, fl.any fun f => f.2 || !f.1)
+
+/-- the raw flags of polynomial `i` of the vector -/
+def Env.flagsOf (env : Env) (i : Nat) : Bool × Bool := env.pflags.getD i (env.odd, env.even)
+
+/-- `Polynomial.Factorize(n)` on every polynomial of the vector, each with its OWN flags -/
 def SubPoly.factorize (env : Env) (p : SubPoly) (n : Nat) : SubPoly × SubPoly :=
-  let qs := p.coeffs.map fun c => (PolyEval.factorizeF intOps env.cheb env.odd env.even n c).1
-  let rs := p.coeffs.map fun c => (PolyEval.factorizeF intOps env.cheb env.odd env.even n c).2
+  let qs := p.coeffs.mapIdx fun i c => (PolyEval.factorizeF intOps env.cheb (env.flagsOf i).1 (env.flagsOf i).2 n c).1
+  let rs := p.coeffs.mapIdx fun i c => (PolyEval.factorizeF intOps env.cheb (env.flagsOf i).1 (env.flagsOf i).2 n c).2
   ({ coeffs := qs, maxDeg := p.maxDeg, lead := p.lead },
    { coeffs := rs, lead := false,
      maxDeg := if p.maxDeg == p.degree then n - 1 else p.maxDeg - (p.degree - n + 1) })
